@@ -16,16 +16,21 @@ import (
 // containers are *struct, lists are []*struct or map[K]*struct.
 type Struct struct {
 	useNode bool
+	hooks   uint32 // pass-through hooks installed on the root node (hooks.go)
 	s       *schema.Node
 	types   map[*schema.Node]reflect.Type
 	root    reflect.Value // pointer to root struct
 }
 
 func (st *Struct) Kind() string {
+	k := "rstruct"
 	if st.useNode {
-		return "nstruct"
+		k = "nstruct"
 	}
-	return "rstruct"
+	if st.hooks != 0 {
+		k += "+hooks"
+	}
+	return k
 }
 
 func (st *Struct) Caps() schema.Caps {
@@ -222,12 +227,14 @@ func (st *Struct) fill(ptr reflect.Value, t *model.Tree) error {
 
 func (st *Struct) Root() node.Node {
 	if st.useNode {
-		return &nodeutil.Node{
+		n := &nodeutil.Node{
 			Object:  st.root.Interface(),
 			Options: nodeutil.NodeOptions{IgnoreEmpty: true, EnumAsStrings: true},
 		}
+		hookNode(n, st.hooks)
+		return n
 	}
-	return nodeutil.Reflect{}.Object(st.root.Interface())
+	return hookReflect(st.hooks).Object(st.root.Interface())
 }
 
 func (st *Struct) Walk() (*model.Tree, error) {
